@@ -241,6 +241,33 @@ impl Read for Src {
         self.pos += n;
         Ok(n)
     }
+
+    /// std's default `read_exact` loop, restated for this source: identical control flow, but the source's own
+    /// `Interrupted` results are recognised by a flag and leaked (inspecting or dropping an `io::Error` decodes
+    /// pointer tag bits, which the model checker cannot fold). The library under test still decides whether
+    /// it calls `read_exact` or `read`.
+    fn read_exact(&mut self, mut buf: &mut [u8]) -> io::Result<()> {
+        while !buf.is_empty() {
+            let before = self.intr_pending;
+            match self.read(buf) {
+                Ok(0) => break,
+                Ok(n) => buf = &mut buf[n..],
+                Err(e) => {
+                    // `read` clears intr_pending exactly when it returns Interrupted
+                    if before && !self.intr_pending && self.fail.is_none() {
+                        core::mem::forget(e);
+                    } else {
+                        return Err(e);
+                    }
+                }
+            }
+        }
+        if !buf.is_empty() {
+            Err(io::ErrorKind::UnexpectedEof.into())
+        } else {
+            Ok(())
+        }
+    }
 }
 
 // ------------------------------------------------------------------------------------------ C06
